@@ -96,25 +96,46 @@ pub fn db_zone_bytes(i: usize) -> Vec<u8> {
 pub const STATIC_NAMES: [&str; N_STATIC as usize] =
     ["America/New_York", "Europe/Dublin", "Asia/Kolkata"];
 
+static UTC_HANDLE: TimeZone = TimeZone::UTC;
+
 pub enum Val {
     Tz(TimeZone),
     Zoned(Zoned),
     Amb(AmbiguousZoned),
+    /// A value derived from a `Zoned` that owns no handle, with what it
+    /// answered when it was made.
+    Derived(Box<jiff::fmt::strtime::BrokenDownTime>, String),
+}
+
+/// What a derived value says about its zone.
+pub fn derived_answer(b: &jiff::fmt::strtime::BrokenDownTime) -> String {
+    let name = b.iana_time_zone().map(|s| s.as_bytes().to_vec());
+    let text = b.to_string("%Q|%z").unwrap_or_else(|_| "<error>".to_string());
+    // If the value reads freed memory these may not be UTF-8 at all: only
+    // ever look at the bytes.
+    let text = String::from_utf8_lossy(text.as_bytes()).into_owned();
+    format!("{name:?}|{:?}|{text}", b.offset().map(|o| o.seconds()))
 }
 
 impl Val {
+    /// The embedded handle. Only for values that embed one.
     pub fn tz(&self) -> &TimeZone {
         match self {
             Val::Tz(tz) => tz,
             Val::Zoned(z) => z.time_zone(),
             Val::Amb(a) => a.time_zone(),
+            Val::Derived(..) => &UTC_HANDLE,
         }
+    }
+    pub fn has_handle(&self) -> bool {
+        !matches!(self, Val::Derived(..))
     }
     pub fn kind(&self) -> &'static str {
         match self {
             Val::Tz(_) => "TimeZone",
             Val::Zoned(_) => "Zoned",
             Val::Amb(_) => "AmbiguousZoned",
+            Val::Derived(..) => "BrokenDownTime",
         }
     }
     fn duplicate(&self) -> Val {
@@ -122,6 +143,8 @@ impl Val {
             Val::Tz(tz) => Val::Tz(tz.clone()),
             Val::Zoned(z) => Val::Zoned(z.clone()),
             Val::Amb(a) => Val::Amb(a.clone()),
+            // Not `Clone`; never duplicated (see `Op::Clone`).
+            Val::Derived(..) => unreachable!("derived values are not cloned"),
         }
     }
 }
@@ -336,8 +359,11 @@ fn put<E: Env>(slots: &mut Slots, dst: u8, new: Option<Slot>, env: &mut E) {
     let d = dst as usize % SLOTS;
     if let Some(old) = slots[d].take() {
         let zone = old.zone;
+        let counted = old.val.has_handle();
         drop(old);
-        env.handles(zone, -1);
+        if counted {
+            env.handles(zone, -1);
+        }
     }
     slots[d] = new;
 }
@@ -381,6 +407,10 @@ pub fn apply<E: Env>(me: u8, op: &Op, slots: &mut Slots, env: &mut E) -> bool {
         }
         Op::Clone { src, dst } => {
             let Some(s) = slots[ix(*src)].as_ref() else { return false };
+            if !s.val.has_handle() {
+                // A derived value owns no handle (and is not `Clone`).
+                return false;
+            }
             let is_tz = matches!(s.val, Val::Tz(_));
             if is_tz {
                 env.no_alloc_begin();
@@ -400,6 +430,10 @@ pub fn apply<E: Env>(me: u8, op: &Op, slots: &mut Slots, env: &mut E) -> bool {
         }
         Op::Drop { slot } => {
             if let Some(old) = slots[ix(*slot)].take() {
+                if !old.val.has_handle() {
+                    drop(old);
+                    return false;
+                }
                 let zone = old.zone;
                 let is_tz = matches!(old.val, Val::Tz(_));
                 if is_tz {
@@ -424,6 +458,9 @@ pub fn apply<E: Env>(me: u8, op: &Op, slots: &mut Slots, env: &mut E) -> bool {
             let (Some(x), Some(y)) = (slots[ix(*a)].as_ref(), slots[ix(*b)].as_ref()) else {
                 return false;
             };
+            if !x.val.has_handle() || !y.val.has_handle() {
+                return false;
+            }
             env.no_alloc_begin();
             let ab = x.val.tz() == y.val.tz();
             let ba = y.val.tz() == x.val.tz();
@@ -436,6 +473,9 @@ pub fn apply<E: Env>(me: u8, op: &Op, slots: &mut Slots, env: &mut E) -> bool {
         }
         Op::Query { a, q, t } => {
             let Some(x) = slots[ix(*a)].as_ref() else { return false };
+            if !x.val.has_handle() {
+                return false;
+            }
             let got = answer(x.val.tz(), *q, *t);
             let spec = x.spec.clone();
             if let Val::Zoned(ref z) = x.val {
@@ -447,6 +487,9 @@ pub fn apply<E: Env>(me: u8, op: &Op, slots: &mut Slots, env: &mut E) -> bool {
         }
         Op::IntoZoned { src, dst, t } => {
             let Some(x) = slots[ix(*src)].as_ref() else { return false };
+            if !x.val.has_handle() {
+                return false;
+            }
             let tz = x.val.tz().clone();
             let (zone, spec) = (x.zone, x.spec.clone());
             env.handles(zone, 1);
@@ -476,6 +519,9 @@ pub fn apply<E: Env>(me: u8, op: &Op, slots: &mut Slots, env: &mut E) -> bool {
                 return false;
             };
             let Val::Zoned(ref z) = x.val else { return false };
+            if !y.val.has_handle() {
+                return false;
+            }
             let handle = y.val.tz().clone();
             let (zone, spec) = (y.zone, y.spec.clone());
             env.handles(zone, 1);
@@ -487,6 +533,9 @@ pub fn apply<E: Env>(me: u8, op: &Op, slots: &mut Slots, env: &mut E) -> bool {
         }
         Op::ExtractTz { src, dst } => {
             let Some(x) = slots[ix(*src)].as_ref() else { return false };
+            if !x.val.has_handle() {
+                return false;
+            }
             let tz = x.val.tz().clone();
             let (zone, spec) = (x.zone, x.spec.clone());
             env.handles(zone, 1);
@@ -699,6 +748,9 @@ pub fn apply<E: Env>(me: u8, op: &Op, slots: &mut Slots, env: &mut E) -> bool {
         }
         Op::TzMake { src, dst, which, t } => {
             let Some(x) = slots[ix(*src)].as_ref() else { return false };
+            if !x.val.has_handle() {
+                return false;
+            }
             let tz = x.val.tz();
             let (zone, spec) = (x.zone, x.spec.clone());
             let dt = datetime(*t);
@@ -762,6 +814,30 @@ pub fn apply<E: Env>(me: u8, op: &Op, slots: &mut Slots, env: &mut E) -> bool {
             match r {
                 Some(val) => put(slots, *dst, Some(Slot { val, zone, spec }), env),
                 None => env.handles(zone, -1),
+            }
+        }
+        Op::MakeDerived { src, dst } => {
+            let Some(x) = slots[ix(*src)].as_ref() else { return false };
+            let Val::Zoned(ref z) = x.val else { return false };
+            let b = jiff::fmt::strtime::BrokenDownTime::from(z);
+            let said = derived_answer(&b);
+            let (zone, spec) = (x.zone, x.spec.clone());
+            put(slots, *dst, Some(Slot { val: Val::Derived(Box::new(b), said), zone, spec }), env);
+        }
+        Op::UseDerived { slot } => {
+            let Some(x) = slots[ix(*slot)].as_ref() else { return false };
+            let Val::Derived(ref b, ref said) = x.val else { return false };
+            // Whatever happened to the zone since, the derived value must
+            // still say what it said when it was made.
+            let now = derived_answer(b);
+            if &now != said {
+                env.fail(
+                    "derived_value",
+                    format!(
+                        "a BrokenDownTime made from a {:?} zoned datetime said {said:?} when it was made and says {now:?} now",
+                        x.spec
+                    ),
+                );
             }
         }
         Op::DbGet { dst, name, case } => {
